@@ -8,6 +8,7 @@ From CR Require Import Base.G2Fold Model.IdPool Proofs.IdPool.
 From CR Require Import Model.IdPoolSrc Gen.Src_idpool Proofs.SrcIdPool.
 From CR Require Import Model.IdRemoveSrc Gen.Src_idremove Proofs.SrcIdRemove.
 From CR Require Import Model.IdAddSrc Gen.Src_idadd Proofs.SrcIdAdd.
+From CR Require Import Model.IdHangSrc Gen.Src_idhang Proofs.SrcIdHang.
 Open Scope Z_scope.
 
 (* what the invariant says: no two contained objects share an id, the id set is exactly the set of ids of the
@@ -167,6 +168,29 @@ Example C09_source_add_nonvacuous :
   snd (run_add_list src_add [AObj (OObst Static 5); AObj (OObst Env 5)] [] s1) = Some ValueError.
 Proof. vm_compute. repeat split. Qed.
 
+(* ---- remove_hanging_lanelet_members is the source ----------------------------------------------------------------
+   Gen/Src_idhang.v holds the method as parsed on every run into the selection language of Model/IdHangSrc.v
+   (harness/props/c09_hang_src.py, fail-closed): which signs / lights are selected (referenced by the lanelets being
+   removed and by no remaining lanelet) and in which order the two list removals are called.  Run with the parsed
+   remove_traffic_sign / remove_traffic_light it is [remove_hanging], and remove_lanelet executed by parsed methods only
+   is [remove_lanelets]. *)
+Theorem C09_remove_hanging_is_source : forall ls s,
+  run_hanging src_hanging (rs_sign src_removal) (rs_light src_removal) ls s = remove_hanging ls s.
+Proof. exact src_hanging_is_model. Qed.
+Theorem C09_remove_lanelet_fully_source : forall ls refs s,
+  run_lanelets_full src_hanging (rs_sign src_removal) (rs_light src_removal) (rs_lanelet src_removal) ls refs s
+  = remove_lanelets ls refs s.
+Proof. exact src_lanelets_full. Qed.
+(* non-vacuity: lanelet 1 leaves with sign 7 (referenced by it alone); sign 8 (shared with lanelet 2) and light 9 stay *)
+Example C09_source_hanging_nonvacuous :
+  let n := mkN [mkL 1 [7; 8] [9]; mkL 2 [8] [9]] [7; 8] [9] [] in
+  let s0 := mkSt [1; 2; 7; 8; 9] (Some 9) n [] [] [] [] [] in
+  let s1 := fst (run_lanelets_full src_hanging (rs_sign src_removal) (rs_light src_removal) (rs_lanelet src_removal)
+                   [mkL 1 [7; 8] [9]] true s0) in
+  idset s1 = [2; 8; 9] /\ n_signs (network s1) = [8] /\ n_lights (network s1) = [9] /\
+  map l_id (n_lanelets (network s1)) = [2].
+Proof. vm_compute. repeat split. Qed.
+
 Print Assumptions C09_inv_meaning.
 Print Assumptions C09_init.
 Print Assumptions C09_step_inv.
@@ -193,3 +217,6 @@ Print Assumptions C09_add_is_source.
 Print Assumptions C09_every_operation_is_source.
 Print Assumptions C09_source_all_reachable_inv.
 Print Assumptions C09_source_add_nonvacuous.
+Print Assumptions C09_remove_hanging_is_source.
+Print Assumptions C09_remove_lanelet_fully_source.
+Print Assumptions C09_source_hanging_nonvacuous.
